@@ -9,7 +9,13 @@
 //! Negative side: accepted base programs x typed mutations (one injected violation each, at every skeleton position);
 //! oracle: `type_check` returns `Err`.
 //!
-//! Signatures: `ir|...` (see ir_typecheck.rs), `illtyped-accepted|<family>|<class>`, `panic|<file>|<message>`.
+//! Two further spaces run first (both added after seeded changes were missed): `modifier_bases`/`modifier_mutants`
+//! (writes and out-arguments whose target type carries a modifier besides `const`, crossed with every storage kind
+//! that makes the target non-writable and every access path) and `init_list_shapes`/`init_list_operands` (brace
+//! initialisers: every list shape / operand kind against a reference model of the two readings of an initialiser list).
+//!
+//! Signatures: `ir|...` (see ir_typecheck.rs), `illtyped-accepted|<family>|<class>`, `panic|<file>|<message>`
+//! (`|<context class>` appended in the modifier space).
 
 use crate::engine::*;
 use crate::ir_typecheck as itc;
@@ -25,6 +31,26 @@ enum TcOut {
     Rej { class: String, line: Option<usize>, msg: String },
     ParseErr(String),
     Panic(PanicInfo),
+}
+
+/// Signature of a panic inside the subject. The typer's debug self-check ("[computed type] != [IR type]: <expression>")
+/// spells out both type names; its class is the root node of the expression, not the operand types.
+fn psig(p: &PanicInfo) -> String {
+    let base = itc::panic_signature(p);
+    if p.message.starts_with('[') {
+        if let (Some(_), Some(k)) = (p.message.find("] != ["), p.message.find("]: ")) {
+            let rest = &p.message[k + 3..];
+            let ident = |t: &str| -> String { t.chars().take_while(|c| c.is_ascii_alphabetic() || *c == '_').collect() };
+            let mut node = ident(rest);
+            if node == "IntrinsicOp" {
+                node = format!("IntrinsicOp({})", ident(&rest[node.len() + 1..]));
+            }
+            let mut parts = base.splitn(3, '|');
+            let (a, b) = (parts.next().unwrap_or("panic"), parts.next().unwrap_or("?"));
+            return format!("{}|{}|type-self-check|{}", a, b, node);
+        }
+    }
+    base
 }
 
 fn variant_name(dbg: &str) -> String {
@@ -129,6 +155,14 @@ fn build_prelude() -> Prelude {
     p.add("o_rwtex", "RWTexture2D<float4> o_rwtex;", &[]);
     p.add("o_ss", "SamplerState o_ss;", &[]);
     p.add("o_cb", "ConstantBuffer<S> o_cb;", &["S"]);
+    // brace initialiser spaces
+    p.add("IT", "struct IT { int q; };", &[]);
+    p.add("IS2", "struct IS2 { int a; float b; };", &[]);
+    p.add("IS3", "struct IS3 { IS2 s; int c[2]; };", &["IS2"]);
+    p.add("i_gf", "static float i_gf;", &[]);
+    p.add("i_gf2", "static float2 i_gf2;", &[]);
+    p.add("i_gt", "static IT i_gt;", &["IT"]);
+    p.add("i_gss", "SamplerState i_gss;", &[]);
     p
 }
 
@@ -247,7 +281,7 @@ fn single(pre: &Prelude, idx: u64, case: &Case, space: &str, acc: &mut Acc) {
         TcOut::Panic(p) => {
             acc.count("panicked");
             acc.violation(Violation {
-                signature: itc::panic_signature(&p),
+                signature: psig(&p),
                 detail: format!("type_check panicked ({}) on case {} of {}: {}", p.message, idx, space, one_line(&case.text, 300)),
                 replay: unit_replay(space, Some(idx), &src),
             });
@@ -972,6 +1006,10 @@ struct NegCase {
     base: usize,
     text: String,
     expect: &'static [&'static str],
+    /// the text is a complete one-line program (NEG_PRELUDE is not prepended)
+    standalone: bool,
+    /// appended to the signature of a panic on this case (context class; empty for the shared-prelude families)
+    tag: String,
 }
 
 const EXPECT_WRITE: &[&str] = &["LvalueRequired", "MutableRequired", "UnaryOperationWrongTypes"];
@@ -1108,10 +1146,10 @@ fn neg_cases() -> Vec<NegCase> {
     let mut out: Vec<NegCase> = Vec::new();
     let mut push_group = |out: &mut Vec<NegCase>, family: &'static str, expect: &'static [&'static str], base_text: &dyn Fn(usize) -> String, muts: Vec<(String, String, Box<dyn Fn(usize) -> String>)>| {
         let bi = out.len();
-        out.push(NegCase { family, class: "base".into(), what: "base program".into(), base: usize::MAX, text: base_text(bi), expect });
+        out.push(NegCase { family, class: "base".into(), what: "base program".into(), base: usize::MAX, text: base_text(bi), expect, standalone: false, tag: String::new() });
         for (class, what, f) in muts {
             let i = out.len();
-            out.push(NegCase { family, class, what, base: bi, text: f(i), expect });
+            out.push(NegCase { family, class, what, base: bi, text: f(i), expect, standalone: false, tag: String::new() });
         }
     };
 
@@ -1402,15 +1440,25 @@ fn neg_cases() -> Vec<NegCase> {
 }
 
 fn neg_source(c: &NegCase) -> String {
-    format!("{}{}\n", NEG_PRELUDE, c.text)
+    if c.standalone { format!("{}\n", c.text) } else { format!("{}{}\n", NEG_PRELUDE, c.text) }
+}
+
+fn tagged(sig: String, tag: &str) -> String {
+    if tag.is_empty() { sig } else { format!("{}|{}", sig, tag) }
 }
 
 fn mutant_replay(c: &NegCase, src: &str) -> String {
-    format!("kind: mutant\nfamily: {}\nclass: {}\nexpect: {}\n{}", c.family, c.class, c.expect.join(","), src)
+    mutant_replay_of(c.family, &c.class, c.expect, &c.tag, src)
+}
+
+/// `expect:` line: accepted error classes, then `;` and the panic tag when there is one
+fn mutant_replay_of(family: &str, class: &str, expect: &[&str], tag: &str, src: &str) -> String {
+    let t = if tag.is_empty() { String::new() } else { format!(";{}", tag) };
+    format!("kind: mutant\nfamily: {}\nclass: {}\nexpect: {}{}\n{}", family, class, expect.join(","), t, src)
 }
 
 /// oracle of the negative side for one mutant
-fn check_mutant(family: &str, class: &str, what: &str, expect: &[&str], src: &str, replay: String, acc: &mut Acc) {
+fn check_mutant(family: &str, class: &str, what: &str, expect: &[&str], src: &str, replay: String, tag: &str, acc: &mut Acc) {
     acc.count("type_checks");
     match tc(src) {
         TcOut::Ok(_) => {
@@ -1436,9 +1484,628 @@ fn check_mutant(family: &str, class: &str, what: &str, expect: &[&str], src: &st
         TcOut::ParseErr(msg) => acc.violation(Violation { signature: format!("machinery|generated-mutant-does-not-parse|{}", family), detail: format!("{}: {}", what, one_line(&msg, 300)), replay }),
         TcOut::Panic(p) => {
             acc.count("panicked");
-            acc.violation(Violation { signature: itc::panic_signature(&p), detail: format!("type_check panicked ({}) on a mutant: {}", p.message, what), replay });
+            acc.violation(Violation { signature: tagged(psig(&p), tag), detail: format!("type_check panicked ({}) on a mutant: {}", one_line(&p.message, 200), what), replay });
         }
     }
+}
+
+// ---------------------------------------------------------------------------------------------
+// negative side, second family: writes through types that carry a modifier besides `const`
+//
+// Dimension: {storage kind that makes the target non-writable} x {modifier set on the declared type} x {type} x
+// {access path into the value} x {write context} (x {statement position} in the thorough tier). The base program of
+// every mutant is the same program with the writable counterpart of the storage kind (static global, plain local or
+// parameter, RW resource), so a mutant only counts when the write itself is well-typed.
+
+/// (class, global declarations, parameter, local declarations, target expression) with `{M}` modifiers, `{T}` type
+struct StorageKind {
+    class: &'static str,
+    /// 'g' extern/static global, 'l' local, 'p' parameter, 'r' resource element
+    site: char,
+    ro: (&'static str, &'static str, &'static str, &'static str),
+    rw: (&'static str, &'static str, &'static str, &'static str),
+}
+
+const STORAGE_KINDS: [StorageKind; 16] = [
+    StorageKind { class: "extern-global", site: 'g', ro: ("{M} {T} w;", "", "", "w"), rw: ("static {M} {T} w;", "", "", "w") },
+    StorageKind { class: "extern-global", site: 'g', ro: ("extern {M} {T} w;", "", "", "w"), rw: ("static {M} {T} w;", "", "", "w") },
+    StorageKind { class: "extern-global", site: 'g', ro: ("typedef {M} {T} TD; TD w;", "", "", "w"), rw: ("typedef {M} {T} TD; static TD w;", "", "", "w") },
+    StorageKind { class: "static-const-global", site: 'g', ro: ("static const {M} {T} w;", "", "", "w"), rw: ("static {M} {T} w;", "", "", "w") },
+    StorageKind { class: "const-local", site: 'l', ro: ("", "", "const {M} {T} w;", "w"), rw: ("", "", "{M} {T} w;", "w") },
+    StorageKind { class: "const-local", site: 'l', ro: ("", "", "{M} const {T} w;", "w"), rw: ("", "", "{M} {T} w;", "w") },
+    StorageKind { class: "const-local", site: 'l', ro: ("typedef {M} {T} TD;", "", "const TD w;", "w"), rw: ("typedef {M} {T} TD;", "", "TD w;", "w") },
+    StorageKind { class: "const-param", site: 'p', ro: ("", "const {M} {T} w", "", "w"), rw: ("", "{M} {T} w", "", "w") },
+    StorageKind { class: "read-only-resource-element", site: 'r', ro: ("Buffer<{M} {T}> w;", "", "", "w[0]"), rw: ("RWBuffer<{M} {T}> w;", "", "", "w[0]") },
+    StorageKind { class: "read-only-resource-element", site: 'r', ro: ("StructuredBuffer<{M} {T}> w;", "", "", "w[0]"), rw: ("RWStructuredBuffer<{M} {T}> w;", "", "", "w[0]") },
+    StorageKind { class: "read-only-resource-element", site: 'r', ro: ("Texture2D<{M} {T}> w;", "", "", "w[uint2(0, 0)]"), rw: ("RWTexture2D<{M} {T}> w;", "", "", "w[uint2(0, 0)]") },
+    StorageKind { class: "read-only-resource-element", site: 'r', ro: ("Texture2DArray<{M} {T}> w;", "", "", "w[uint3(0, 0, 0)]"), rw: ("RWTexture2DArray<{M} {T}> w;", "", "", "w[uint3(0, 0, 0)]") },
+    StorageKind { class: "read-only-resource-element", site: 'r', ro: ("Texture3D<{M} {T}> w;", "", "", "w[uint3(0, 0, 0)]"), rw: ("RWTexture3D<{M} {T}> w;", "", "", "w[uint3(0, 0, 0)]") },
+    StorageKind { class: "read-only-resource-element", site: 'r', ro: ("Texture2D<{M} {T}> w;", "", "", "w.mips[0][uint2(0, 0)]"), rw: ("RWTexture2D<{M} {T}> w;", "", "", "w[uint2(0, 0)]") },
+    StorageKind { class: "read-only-resource-element", site: 'r', ro: ("Texture2DArray<{M} {T}> w;", "", "", "w.mips[0][uint3(0, 0, 0)]"), rw: ("RWTexture2DArray<{M} {T}> w;", "", "", "w[uint3(0, 0, 0)]") },
+    StorageKind { class: "read-only-resource-element", site: 'r', ro: ("Texture3D<{M} {T}> w;", "", "", "w.mips[0][uint3(0, 0, 0)]"), rw: ("RWTexture3D<{M} {T}> w;", "", "", "w[uint3(0, 0, 0)]") },
+];
+
+/// (type, access paths as (suffix, type of the path)); `float` types take unorm/snorm, matrices also a matrix order
+fn modified_types(quick: bool) -> Vec<(&'static str, Vec<(&'static str, &'static str)>)> {
+    let mut v = vec![
+        ("float2x2", vec![("", "float2x2"), ("[1]", "float2"), ("[1][0]", "float"), ("._m00", "float"), ("._m00_m11", "float2")]),
+        ("float4", vec![("", "float4"), ("[1]", "float"), (".x", "float"), (".xy", "float2")]),
+        ("float", vec![("", "float")]),
+    ];
+    if !quick {
+        v.push(("float4x4", vec![("", "float4x4"), ("[1]", "float4"), ("[1][0]", "float"), ("._m00", "float"), ("._m00_m11", "float2")]));
+        v.push(("float3x2", vec![("", "float3x2"), ("[1]", "float2"), ("[1][0]", "float"), ("._m00", "float"), ("._m00_m11", "float2")]));
+        v.push(("float2", vec![("", "float2"), ("[1]", "float"), (".x", "float"), (".xy", "float2")]));
+        v.push(("int", vec![("", "int")]));
+        v.push(("uint3", vec![("", "uint3"), ("[1]", "uint"), (".x", "uint"), (".xy", "uint2")]));
+    }
+    v
+}
+
+/// modifier sets that may be written on a declaration of type `t` at the given site (the empty set first: the control)
+fn modifier_sets(t: &str, site: char, quick: bool) -> Vec<&'static str> {
+    let is_float = t.starts_with("float");
+    let is_matrix = t.contains('x');
+    let mut v = vec![""];
+    if is_matrix {
+        v.extend(["row_major", "column_major"]);
+    }
+    if is_float {
+        v.extend(["unorm", "snorm"]);
+    }
+    if is_matrix && is_float {
+        v.extend(["row_major unorm", "snorm row_major", "unorm column_major", "column_major snorm"]);
+    }
+    // volatile is only accepted on locals and parameters
+    if site == 'l' || site == 'p' {
+        v.push("volatile");
+        if !quick && is_matrix {
+            v.push("volatile row_major");
+        }
+    }
+    v
+}
+
+/// (tag, family, helper declarations, statement) with `{X}` the target, `{R}` a writable value of the same type, `{PT}` its type
+fn write_contexts(quick: bool) -> Vec<(&'static str, &'static str, &'static str, String)> {
+    let mut v: Vec<(&'static str, &'static str, &'static str, String)> = vec![("assign", "write", "", "{X} = {R}".into()), ("assign-literal", "write", "", "{X} = 1".into())];
+    let ops: &[&str] = if quick { &["+="] } else { &ASSIGN_OPS[1..] };
+    for op in ops {
+        v.push(("compound-assign", "write", "", format!("{{X}} {} {{R}}", op)));
+    }
+    v.push(("incdec-prefix", "write", "", "++{X}".into()));
+    v.push(("incdec-postfix", "write", "", "{X}++".into()));
+    v.push(("incdec-postfix", "write", "", "{X}--".into()));
+    if !quick {
+        v.push(("incdec-prefix", "write", "", "--{X}".into()));
+        v.push(("compound-assign-literal", "write", "", "{X} += 1".into()));
+    }
+    v.push(("out-arg", "out-arg", "void fo(out {PT} p);", "fo({X})".into()));
+    v.push(("out-arg", "out-arg", "void fio(inout {PT} p);", "fio({X})".into()));
+    v.push(("out-arg", "out-arg", "template<typename Q> void to(out Q p) { }", "to({X})".into()));
+    if !quick {
+        v.push(("out-arg", "out-arg", "template<typename Q> void tio(inout Q p) { }", "tio<{PT}>({X})".into()));
+        v.push(("out-arg", "out-arg", "void f2o(int a, out {PT} p);", "f2o(1, {X})".into()));
+    }
+    v
+}
+
+/// statement positions: (name, program with `{G}` globals, `{P}` parameters, `{D}` local declarations, `{W}` the statement, `{I}`)
+const MOD_POSITIONS: [(&str, &str); 10] = [
+    ("stmt", "{G}void m_{I}({P}) { {D}{W}; }"),
+    ("if", "{G}void m_{I}({P}) { {D}if (lb) { {W}; } }"),
+    ("else", "{G}void m_{I}({P}) { {D}if (lb) { } else { {W}; } }"),
+    ("for-init", "{G}void m_{I}({P}) { {D}for ({W}; lb; ) { break; } }"),
+    ("for-iter", "{G}void m_{I}({P}) { {D}for (; lb; {W}) { break; } }"),
+    ("while", "{G}void m_{I}({P}) { {D}while (lb) { {W}; break; } }"),
+    ("switch", "{G}void m_{I}({P}) { {D}switch (li) { case 1: {W}; break; default: break; } }"),
+    ("sequence", "{G}void m_{I}({P}) { {D}(li, ({W})); }"),
+    ("block", "{G}void m_{I}({P}) { {D}{ { {W}; } } }"),
+    ("method", "{G}struct M_{I} { int fld; void meth_{I}({P}) { {D}{W}; } };"),
+];
+
+fn modifier_cases(quick: bool) -> Vec<NegCase> {
+    let mut out: Vec<NegCase> = Vec::new();
+    let mut base_index: BTreeMap<String, usize> = BTreeMap::new();
+    let types = modified_types(quick);
+    let ctxs = write_contexts(quick);
+    let npos = if quick { 1 } else { MOD_POSITIONS.len() };
+    let squeeze = |s: String| -> String { s.split_whitespace().collect::<Vec<_>>().join(" ") };
+    for (pname, ptpl) in &MOD_POSITIONS[..npos] {
+        for (t, paths) in &types {
+            for sk in STORAGE_KINDS.iter() {
+                for m in modifier_sets(t, sk.site, quick) {
+                    for (suffix, pt) in paths {
+                        for (tag, family, helper, stmt) in &ctxs {
+                            let expect: &'static [&'static str] = if *family == "write" { EXPECT_WRITE } else { EXPECT_CALL };
+                            let program = |d: &(&str, &str, &str, &str)| -> String {
+                                let sub = |x: &str| x.replace("{M}", m).replace("{T}", t).replace("{PT}", pt);
+                                let w = stmt.replace("{X}", &format!("{}{}", d.3, suffix)).replace("{R}", &format!("l2{}", suffix)).replace("{PT}", pt);
+                                let g = format!("{} {} ", sub(d.0), sub(helper));
+                                let locals = format!("{} {} l2; bool lb = true; int li = 1; ", sub(d.2), t);
+                                squeeze(ptpl.replace("{G}", &g).replace("{P}", &sub(d.1)).replace("{D}", &locals).replace("{W}", &w))
+                            };
+                            let tag_full = if m.is_empty() { tag.to_string() } else { format!("{}+modifier", tag) };
+                            let btpl = program(&sk.rw);
+                            let bi = match base_index.get(&btpl) {
+                                Some(i) => *i,
+                                None => {
+                                    let i = out.len();
+                                    base_index.insert(btpl.clone(), i);
+                                    out.push(NegCase {
+                                        family,
+                                        class: "base".into(),
+                                        what: format!("{} on a writable `{} {}` value, path `{}`", tag, m, t, suffix),
+                                        base: usize::MAX,
+                                        text: btpl.replace("{I}", &i.to_string()),
+                                        expect,
+                                        standalone: true,
+                                        tag: tag_full.clone(),
+                                    });
+                                    i
+                                }
+                            };
+                            let i = out.len();
+                            let class = if m.is_empty() { sk.class.to_string() } else { format!("{}+modifier", sk.class) };
+                            out.push(NegCase {
+                                family,
+                                class,
+                                what: format!("`{}` where the target is declared `{}` (modifiers `{}`, path `{}`), position {}", stmt.replace("{X}", &format!("{}{}", sk.ro.3, suffix)).replace("{R}", &format!("l2{}", suffix)).replace("{PT}", pt), squeeze(format!("{} {} {}", sk.ro.0, sk.ro.1, sk.ro.2).replace("{M}", m).replace("{T}", t)), m, suffix, pname),
+                                base: bi,
+                                text: program(&sk.ro).replace("{I}", &i.to_string()),
+                                expect,
+                                standalone: true,
+                                tag: tag_full,
+                            });
+                        }
+                    }
+                }
+            }
+        }
+    }
+    out
+}
+
+// ---------------------------------------------------------------------------------------------
+// brace (aggregate) initialisers: {list shape} x {leaf kind at every leaf} x {target type} x {declaration form}
+
+/// a brace initialiser: an operand (index into INIT_LEAVES) or a list
+#[derive(Clone, Debug, PartialEq, Eq, PartialOrd, Ord)]
+enum Bt {
+    Leaf(u8),
+    List(Vec<Bt>),
+}
+
+impl Bt {
+    fn leaves(&self) -> u32 {
+        match self {
+            Bt::Leaf(_) => 1,
+            Bt::List(c) => c.iter().map(|x| x.leaves()).sum(),
+        }
+    }
+    fn nodes(&self) -> u32 {
+        match self {
+            Bt::Leaf(_) => 1,
+            Bt::List(c) => 1 + c.iter().map(|x| x.nodes()).sum::<u32>(),
+        }
+    }
+    fn depth(&self) -> u32 {
+        match self {
+            Bt::Leaf(_) => 0,
+            Bt::List(c) => 1 + c.iter().map(|x| x.depth()).max().unwrap_or(0),
+        }
+    }
+    fn has_empty(&self) -> bool {
+        match self {
+            Bt::Leaf(_) => false,
+            Bt::List(c) => c.is_empty() || c.iter().any(|x| x.has_empty()),
+        }
+    }
+    fn kinds(&self, out: &mut Vec<u8>) {
+        match self {
+            Bt::Leaf(k) => out.push(*k),
+            Bt::List(c) => c.iter().for_each(|x| x.kinds(out)),
+        }
+    }
+    fn text(&self) -> String {
+        match self {
+            Bt::Leaf(k) => INIT_LEAVES[*k as usize].0.to_string(),
+            Bt::List(c) if c.is_empty() => "{ }".to_string(),
+            Bt::List(c) => format!("{{ {} }}", c.iter().map(|x| x.text()).collect::<Vec<_>>().join(", ")),
+        }
+    }
+    /// the same shape with the leaves relabelled in order
+    fn relabel(&self, kinds: &[u8], pos: &mut usize) -> Bt {
+        match self {
+            Bt::Leaf(_) => {
+                *pos += 1;
+                Bt::Leaf(kinds[*pos - 1])
+            }
+            Bt::List(c) => Bt::List(c.iter().map(|x| x.relabel(kinds, pos)).collect()),
+        }
+    }
+}
+
+/// operand kinds: (expression, prelude item, components it contributes when an initialiser list is flattened
+/// (0 = can never be an operand of a numeric aggregate), width as a numeric value (0 = not numeric))
+const INIT_LEAVES: [(&str, &str, u32, u32); 5] = [("1", "", 1, 1), ("i_gf", "i_gf", 1, 1), ("i_gf2", "i_gf2", 2, 2), ("i_gt", "i_gt", 1, 0), ("i_gss", "i_gss", 0, 0)];
+
+/// all lists of depth <= `depth`, at most `width` elements per list, at most `max_leaves` operands and `max_nodes`
+/// nodes in total; shapes that contain a list without elements only up to 4 nodes (no oracle applies to them);
+/// every leaf is kind 0; simplest (fewest nodes) first
+fn brace_shapes(depth: u32, width: usize, max_leaves: u32, max_nodes: u32) -> Vec<Bt> {
+    fn lists(depth: u32, width: usize, max_leaves: u32, max_nodes: u32) -> Vec<Bt> {
+        // children of a list of this depth: a leaf or a list one level shallower
+        let mut subs: Vec<Bt> = vec![Bt::Leaf(0)];
+        if depth > 1 {
+            subs.extend(lists(depth - 1, width, max_leaves, max_nodes));
+        }
+        let mut out: Vec<Bt> = Vec::new();
+        fn ext(cur: &mut Vec<Bt>, leaves: u32, nodes: u32, subs: &[Bt], width: usize, max_leaves: u32, max_nodes: u32, out: &mut Vec<Bt>) {
+            out.push(Bt::List(cur.clone()));
+            if cur.len() == width {
+                return;
+            }
+            for s in subs {
+                let (l, n) = (leaves + s.leaves(), nodes + s.nodes());
+                if l <= max_leaves && n <= max_nodes {
+                    cur.push(s.clone());
+                    ext(cur, l, n, subs, width, max_leaves, max_nodes, out);
+                    cur.pop();
+                }
+            }
+        }
+        ext(&mut Vec::new(), 0, 1, &subs, width, max_leaves, max_nodes, &mut out);
+        out
+    }
+    let mut v = lists(depth, width, max_leaves, max_nodes);
+    v.retain(|t| !t.has_empty() || t.nodes() <= 4);
+    v.sort_by_key(|t| (t.nodes(), t.leaves(), t.depth(), t.text()));
+    v.dedup();
+    v
+}
+
+/// model of a declared type
+#[derive(Clone, Debug)]
+enum Ity {
+    Sc,
+    Vec(u32),
+    Arr(Box<Ity>, u32),
+    St(Vec<Ity>),
+}
+
+impl Ity {
+    fn flat(&self) -> u32 {
+        match self {
+            Ity::Sc => 1,
+            Ity::Vec(n) => *n,
+            Ity::Arr(e, n) => e.flat() * n,
+            Ity::St(ms) => ms.iter().map(|m| m.flat()).sum(),
+        }
+    }
+}
+
+/// Element-wise reading (the one rssl implements): a list initialises a scalar only when it has exactly one element,
+/// a vector / array / struct takes exactly one element per component / element / member. Err = class of the first
+/// position (pre-order) where the initialiser does not fit.
+fn structured_fit(t: &Bt, ty: &Ity) -> Result<(), &'static str> {
+    match (ty, t) {
+        (Ity::Sc, Bt::Leaf(k)) => {
+            if INIT_LEAVES[*k as usize].3 >= 1 {
+                Ok(())
+            } else {
+                Err("unconvertible-operand")
+            }
+        }
+        (Ity::Sc, Bt::List(c)) => match c.len() {
+            0 => Err("no-operand-for-scalar"),
+            1 => structured_fit(&c[0], ty),
+            _ => Err("excess-operands-for-scalar"),
+        },
+        (Ity::Vec(n), Bt::Leaf(k)) => {
+            let w = INIT_LEAVES[*k as usize].3;
+            if w == 1 || w >= *n { Ok(()) } else { Err("unconvertible-operand") }
+        }
+        (Ity::Vec(n), Bt::List(c)) => {
+            if c.len() as u32 != *n {
+                return Err("vector-operand-count");
+            }
+            c.iter().try_for_each(|x| structured_fit(x, &Ity::Sc))
+        }
+        (Ity::Arr(..), Bt::Leaf(_)) | (Ity::St(_), Bt::Leaf(_)) => Err("unconvertible-operand"),
+        (Ity::Arr(e, n), Bt::List(c)) => {
+            if c.len() as u32 != *n {
+                return Err("array-operand-count");
+            }
+            c.iter().try_for_each(|x| structured_fit(x, e))
+        }
+        (Ity::St(ms), Bt::List(c)) => {
+            if c.len() != ms.len() {
+                return Err("struct-operand-count");
+            }
+            c.iter().zip(ms.iter()).try_for_each(|(x, m)| structured_fit(x, m))
+        }
+    }
+}
+
+/// Flattening reading (HLSL): the operands of all nested lists are concatenated and must supply exactly as many scalar
+/// components as the target has.
+fn flattened_fit(t: &Bt, ty: &Ity) -> bool {
+    let mut ks = Vec::new();
+    t.kinds(&mut ks);
+    !t.has_empty() && ks.iter().all(|k| INIT_LEAVES[*k as usize].2 > 0) && ks.iter().map(|k| INIT_LEAVES[*k as usize].2).sum::<u32>() == ty.flat()
+}
+
+/// (name, type before the declarator, declarator suffix, prelude items, model)
+fn init_targets() -> Vec<(&'static str, &'static str, &'static str, Vec<&'static str>, Ity)> {
+    let s2 = Ity::St(vec![Ity::Sc, Ity::Sc]);
+    vec![
+        ("int", "int", "", vec![], Ity::Sc),
+        ("float2", "float2", "", vec![], Ity::Vec(2)),
+        ("float[2]", "float", "[2]", vec![], Ity::Arr(Box::new(Ity::Sc), 2)),
+        ("S2", "IS2", "", vec!["IS2"], s2.clone()),
+        ("float2[2]", "float2", "[2]", vec![], Ity::Arr(Box::new(Ity::Vec(2)), 2)),
+        ("S3", "IS3", "", vec!["IS3"], Ity::St(vec![s2.clone(), Ity::Arr(Box::new(Ity::Sc), 2)])),
+        ("int3", "int3", "", vec![], Ity::Vec(3)),
+        ("S2[2]", "IS2", "[2]", vec!["IS2"], Ity::Arr(Box::new(s2), 2)),
+    ]
+}
+
+/// declaration forms: `{P}` type, `{S}` declarator suffix, `{V}` the initialiser, `{I}` case index
+const INIT_FORMS: [&str; 7] = [
+    "void c_{I}() { {P} v{S} = {V}; }",
+    "static {P} v_{I}{S} = {V};",
+    "static const {P} v_{I}{S} = {V};",
+    "void c_{I}() { const {P} v{S} = {V}; }",
+    "void c_{I}() { static {P} v{S} = {V}; }",
+    "void c_{I}() { for ({P} v{S} = {V}; ; ) { break; } }",
+    "void c_{I}() { {P} u{S}, v{S} = {V}; }",
+];
+
+const EXPECT_INIT: &[&str] = &["InitializerAggregateWrongDimension", "InitializerExpressionWrongType", "InitializerAggregateDoesNotMatchType"];
+
+struct InitSpace {
+    /// (shape with all leaves of kind 0, number of leaf labellings enumerated for it)
+    shapes: Vec<Bt>,
+    /// first tree index of every shape
+    offsets: Vec<u64>,
+    trees: u64,
+    nkinds: u64,
+    targets: Vec<(&'static str, &'static str, &'static str, Vec<&'static str>, Ity)>,
+    nforms: u64,
+}
+
+struct InitCase {
+    case: Case,
+    tree: Bt,
+    target: &'static str,
+    /// class of the violation when neither reading accepts the initialiser
+    must_reject: Option<&'static str>,
+    structured_ok: bool,
+}
+
+impl InitSpace {
+    /// `nkinds` leaf kinds at every leaf (1 = only the literal)
+    fn new(shapes: Vec<Bt>, nkinds: u64, ntargets: usize, nforms: u64) -> InitSpace {
+        let mut offsets = Vec::new();
+        let mut trees = 0u64;
+        for s in &shapes {
+            offsets.push(trees);
+            trees += nkinds.pow(s.leaves());
+        }
+        let mut targets = init_targets();
+        targets.truncate(ntargets);
+        InitSpace { shapes, offsets, trees, nkinds, targets, nforms }
+    }
+    fn len(&self) -> u64 {
+        self.trees * self.targets.len() as u64 * self.nforms
+    }
+    /// simplest first: trees in order of size (slowest), then target, then declaration form
+    fn get(&self, idx: u64) -> InitCase {
+        let form = INIT_FORMS[(idx % self.nforms) as usize];
+        let (tname, tprefix, tsuffix, tneeds, model) = &self.targets[((idx / self.nforms) % self.targets.len() as u64) as usize];
+        let ti = idx / self.nforms / self.targets.len() as u64;
+        let k = match self.offsets.binary_search(&ti) {
+            Ok(k) => k,
+            Err(k) => k - 1,
+        };
+        let shape = &self.shapes[k];
+        let mut d = ti - self.offsets[k];
+        let mut kinds = Vec::new();
+        for _ in 0..shape.leaves() {
+            kinds.push((d % self.nkinds) as u8);
+            d /= self.nkinds;
+        }
+        let tree = shape.relabel(&kinds, &mut 0);
+        let mut needs: Vec<String> = tneeds.iter().map(|s| s.to_string()).collect();
+        for k in &kinds {
+            let n = INIT_LEAVES[*k as usize].1;
+            if !n.is_empty() && !needs.iter().any(|x| x == n) {
+                needs.push(n.to_string());
+            }
+        }
+        let text = form.replace("{P}", tprefix).replace("{S}", tsuffix).replace("{V}", &tree.text()).replace("{I}", &idx.to_string());
+        let st = structured_fit(&tree, model);
+        // Both readings must refuse the initialiser before the check demands a rejection; lists without any operand
+        // are left to the type checker (other C-like languages read `{ }` as a zero value).
+        let must_reject = match st {
+            Err(class) if !flattened_fit(&tree, model) && !tree.has_empty() => Some(class),
+            _ => None,
+        };
+        InitCase { case: Case { text, needs }, tree, target: tname, must_reject, structured_ok: st.is_ok() }
+    }
+}
+
+fn ir_init_leaves(i: &rssl::ir::Initializer) -> u64 {
+    match i {
+        rssl::ir::Initializer::Expression(_) => 1,
+        rssl::ir::Initializer::Aggregate(l) => l.iter().map(ir_init_leaves).sum(),
+    }
+}
+
+fn ir_block_init_leaves(b: &rssl::ir::ScopeBlock) -> u64 {
+    use rssl::ir::{ForInit, StatementKind};
+    let mut n = 0;
+    for st in &b.0 {
+        match &st.kind {
+            StatementKind::Var(vd) => n += vd.init.as_ref().map(ir_init_leaves).unwrap_or(0),
+            StatementKind::Block(b) | StatementKind::If(_, b) | StatementKind::While(_, b) | StatementKind::DoWhile(b, _) | StatementKind::Switch(_, b) => n += ir_block_init_leaves(b),
+            StatementKind::IfElse(_, a, b) => n += ir_block_init_leaves(a) + ir_block_init_leaves(b),
+            StatementKind::For(init, _, _, b) => {
+                if let ForInit::Definitions(defs) = init {
+                    for d in defs {
+                        n += d.init.as_ref().map(ir_init_leaves).unwrap_or(0);
+                    }
+                }
+                n += ir_block_init_leaves(b);
+            }
+            _ => {}
+        }
+    }
+    n
+}
+
+/// number of operand expressions in all variable initialisers of the module
+fn ir_module_init_leaves(m: &rssl::ir::Module) -> u64 {
+    let mut n = 0;
+    for g in m.global_registry.iter() {
+        if !g.is_intrinsic {
+            n += g.init.as_ref().map(ir_init_leaves).unwrap_or(0);
+        }
+    }
+    for f in 0..m.function_registry.get_function_count() {
+        let fid = rssl::ir::FunctionId(f);
+        if m.function_registry.get_intrinsic_data(fid).is_some() {
+            continue;
+        }
+        if let Some(imp) = m.function_registry.get_function_implementation(fid) {
+            n += ir_block_init_leaves(&imp.scope_block);
+        }
+    }
+    n
+}
+
+/// relational oracle on an accepted initialiser: no operand written in the source may be missing from the IR
+fn check_init_operands(m: &rssl::ir::Module, source_leaves: u64, what: &str, src: &str, acc: &mut Acc) {
+    let n = ir_module_init_leaves(m);
+    if n < source_leaves {
+        acc.violation(Violation {
+            signature: "ir|init-operands-dropped".into(),
+            detail: format!("{}: the source initialiser has {} operands, the elaborated initialiser {} (an operand disappeared without being type checked)", what, source_leaves, n),
+            replay: format!("kind: init-operands\nleaves: {}\n{}", source_leaves, src),
+        });
+    }
+}
+
+fn init_eval(pre: &Prelude, space: &str, idx: u64, ic: &InitCase, acc: &mut Acc) {
+    acc.evals += 1;
+    let (src, _) = assemble(pre, &[&ic.case]);
+    let what = format!("`{}` as the initialiser of a variable of type {}", ic.tree.text(), ic.target);
+    if let Some(class) = ic.must_reject {
+        acc.count("init|must be rejected in both readings");
+        let replay = mutant_replay_of("initialiser", class, EXPECT_INIT, "", &src);
+        check_mutant("initialiser", class, &what, EXPECT_INIT, &src, replay, "", acc);
+        return;
+    }
+    acc.count("type_checks");
+    match tc(&src) {
+        TcOut::Ok(m) => {
+            acc.count(if ic.structured_ok { "init|accepted|fits element-wise" } else { "init|accepted|does not fit element-wise" });
+            check_accepted(pre, &m, &[(idx, ic.case.clone())], &src, space, acc);
+            check_init_operands(&m, ic.tree.leaves() as u64, &what, &src, acc);
+        }
+        TcOut::Rej { class, .. } => {
+            acc.count("rejected");
+            acc.count(&format!("init|rejected|{}|{}", if ic.structured_ok { "fits element-wise" } else if ic.tree.has_empty() { "has an empty list" } else { "fits only flattened" }, class));
+        }
+        TcOut::ParseErr(msg) => acc.violation(Violation {
+            signature: format!("machinery|generated-case-does-not-parse|{}", space),
+            detail: format!("case {} of {}: {}", idx, space, one_line(&msg, 300)),
+            replay: unit_replay(space, Some(idx), &src),
+        }),
+        TcOut::Panic(p) => {
+            acc.count("panicked");
+            acc.violation(Violation { signature: psig(&p), detail: format!("type_check panicked ({}) on {}", one_line(&p.message, 200), what), replay: unit_replay(space, Some(idx), &src) });
+        }
+    }
+}
+
+fn run_init_space(ctx: &Ctx, rep: &mut Report, pre: &Prelude, name: &str, sp: &InitSpace) {
+    if !space_selected(name) {
+        rep.exhaustive = false;
+        rep.caps_hit.push(format!("{}: not selected by VERIF_C03_SPACES", name));
+        return;
+    }
+    let total = sp.len();
+    let r = run_par(ctx, total, 64, |idx, acc| {
+        let ic = sp.get(idx);
+        let t0 = thread_cpu_s();
+        init_eval(pre, name, idx, &ic, acc);
+        acc.add(&format!("cpu_us|{}", name), ((thread_cpu_s() - t0) * 1e6) as u64);
+        if idx % 9973 == 0 {
+            acc.sample(obj(vec![("space", name.into()), ("case", (idx as i64).into()), ("text", ic.case.text.as_str().into())]));
+        }
+    });
+    rep.cov(&format!("cases_{}", name), Json::Int(total as i64));
+    rep.cov(&format!("trees_{}", name), Json::Int(sp.trees as i64));
+    rep.absorb(name, r);
+}
+
+/// Negative side driver: type check every base program (accepted ones also go through the IR checker), then every
+/// mutant whose base was accepted.
+fn run_neg(ctx: &Ctx, rep: &mut Report, pre: &Prelude, neg: &[NegCase], bases_space: &str, mutants_space: &str, sample_every: u64) {
+    let accepted: Vec<AtomicBool> = neg.iter().map(|_| AtomicBool::new(false)).collect();
+    let bases: Vec<usize> = neg.iter().enumerate().filter(|(_, c)| c.base == usize::MAX).map(|(i, _)| i).collect();
+    let r = run_par(ctx, bases.len() as u64, 16, |k, acc| {
+        let i = bases[k as usize];
+        let c = &neg[i];
+        let src = neg_source(c);
+        let space_line = if c.tag.is_empty() { bases_space.to_string() } else { format!("{};{}", bases_space, c.tag) };
+        acc.evals += 1;
+        acc.count("type_checks");
+        match tc(&src) {
+            TcOut::Ok(m) => {
+                accepted[i].store(true, Ordering::Relaxed);
+                acc.count(&format!("bases_accepted|{}", c.family));
+                let case = Case { text: c.text.clone(), needs: vec![] };
+                check_accepted(pre, &m, &[(i as u64, case)], &src, bases_space, acc);
+            }
+            TcOut::Rej { class, .. } => {
+                acc.count(&format!("bases_rejected|{}|{}", c.family, class));
+            }
+            TcOut::ParseErr(msg) => acc.violation(Violation {
+                signature: format!("machinery|generated-base-does-not-parse|{}", c.family),
+                detail: one_line(&msg, 300),
+                replay: unit_replay(&space_line, Some(i as u64), &src),
+            }),
+            TcOut::Panic(p) => {
+                acc.count("panicked");
+                acc.violation(Violation {
+                    signature: tagged(psig(&p), &c.tag),
+                    detail: format!("type_check panicked ({}) on a base program ({}): {}", one_line(&p.message, 200), c.what, one_line(&c.text, 300)),
+                    replay: unit_replay(&space_line, Some(i as u64), &src),
+                })
+            }
+        }
+    });
+    rep.absorb(bases_space, r);
+    let muts: Vec<usize> = neg.iter().enumerate().filter(|(_, c)| c.base != usize::MAX).map(|(i, _)| i).collect();
+    let r = run_par(ctx, muts.len() as u64, 32, |k, acc| {
+        let c = &neg[muts[k as usize]];
+        if !accepted[c.base].load(Ordering::Relaxed) {
+            acc.count(&format!("mutants_not_applicable_base_rejected|{}", c.family));
+            return;
+        }
+        acc.evals += 1;
+        acc.count(&format!("mutants|{}", c.family));
+        let src = neg_source(c);
+        let replay = mutant_replay(c, &src);
+        check_mutant(c.family, &c.class, &c.what, c.expect, &src, replay, &c.tag, acc);
+        if k % sample_every == 0 {
+            acc.sample(obj(vec![("space", mutants_space.into()), ("family", c.family.into()), ("class", c.class.as_str().into()), ("text", c.text.as_str().into())]));
+        }
+    });
+    rep.absorb(mutants_space, r);
 }
 
 // ---------------------------------------------------------------------------------------------
@@ -1446,9 +2113,28 @@ fn check_mutant(family: &str, class: &str, what: &str, expect: &[&str], src: &st
 pub fn run(ctx: &Ctx) -> i32 {
     let quick = ctx.quick();
     let mut rep = Report::new("exploration");
-    rep.rule = "every case is type checked by the real rssl::typer::type_check; positive side: non-trivial = accepted, distinct = different elaborated IR with the independently computed type of every node; negative side: non-trivial = rejected mutant, distinct = (mutation family, class, error class)".into();
+    rep.rule = "every case is type checked by the real rssl::typer::type_check; positive side: non-trivial = accepted, distinct = different elaborated IR with the independently computed type of every node; negative side (mutants, and brace initialisers that fit no reading): non-trivial = rejected, distinct = (mutation family, class, error class)".into();
     let pre = build_prelude();
     let batch = 48u64;
+
+    // ---- the two small spaces that were added after seeded changes were missed run first, so that a time budget
+    // cut short by a loaded machine never removes them
+    // writes through types with a modifier besides const (negative side)
+    if space_selected("modifier_mutants") {
+        let mneg = modifier_cases(quick);
+        rep.cov("cases_modifier_mutants", Json::Int(mneg.iter().filter(|c| c.base != usize::MAX).count() as i64));
+        rep.cov("cases_modifier_bases", Json::Int(mneg.iter().filter(|c| c.base == usize::MAX).count() as i64));
+        run_neg(ctx, &mut rep, &pre, &mneg, "modifier_bases", "modifier_mutants", 2003);
+    } else {
+        rep.exhaustive = false;
+        rep.caps_hit.push("modifier_mutants: not selected by VERIF_C03_SPACES".into());
+    }
+    // brace initialisers: every list shape with literal operands x target x declaration form, and every operand kind
+    // at every leaf of the smaller shapes
+    let init_shapes = if quick { InitSpace::new(brace_shapes(3, 4, 5, 9), 1, 8, 2) } else { InitSpace::new(brace_shapes(3, 4, 6, 10), 1, 8, INIT_FORMS.len() as u64) };
+    run_init_space(ctx, &mut rep, &pre, "init_list_shapes", &init_shapes);
+    let init_kinds = if quick { InitSpace::new(brace_shapes(2, 3, 3, 6), INIT_LEAVES.len() as u64, 8, 1) } else { InitSpace::new(brace_shapes(3, 3, 4, 7), INIT_LEAVES.len() as u64, 8, 2) };
+    run_init_space(ctx, &mut rep, &pre, "init_list_operands", &init_kinds);
 
     // ---- positive side
     let ops = Operands::new(quick);
@@ -1474,56 +2160,13 @@ pub fn run(ctx: &Ctx) -> i32 {
     rep.cov("call_shapes", Json::Int(calls.shapes.len() as i64));
 
     // ---- negative side
-    if !space_selected("mutants") {
+    if space_selected("mutants") {
+        let neg = neg_cases();
+        run_neg(ctx, &mut rep, &pre, &neg, "mutation_bases", "mutants", 4001);
+    } else {
         rep.exhaustive = false;
         rep.caps_hit.push("mutants: not selected by VERIF_C03_SPACES".into());
-        return finish(ctx, rep);
     }
-    let neg = neg_cases();
-    let accepted: Vec<AtomicBool> = neg.iter().map(|_| AtomicBool::new(false)).collect();
-    let bases: Vec<usize> = neg.iter().enumerate().filter(|(_, c)| c.base == usize::MAX).map(|(i, _)| i).collect();
-    let r = run_par(ctx, bases.len() as u64, 16, |k, acc| {
-        let i = bases[k as usize];
-        let c = &neg[i];
-        let src = neg_source(c);
-        acc.evals += 1;
-        acc.count("type_checks");
-        match tc(&src) {
-            TcOut::Ok(m) => {
-                accepted[i].store(true, Ordering::Relaxed);
-                acc.count(&format!("bases_accepted|{}", c.family));
-                let case = Case { text: c.text.clone(), needs: vec![] };
-                check_accepted(&pre, &m, &[(i as u64, case)], &src, "mutation_bases", acc);
-            }
-            TcOut::Rej { class, .. } => {
-                acc.count(&format!("bases_rejected|{}|{}", c.family, class));
-            }
-            TcOut::ParseErr(msg) => acc.violation(Violation {
-                signature: format!("machinery|generated-base-does-not-parse|{}", c.family),
-                detail: one_line(&msg, 300),
-                replay: unit_replay("mutation_bases", Some(i as u64), &src),
-            }),
-            TcOut::Panic(p) => acc.violation(Violation { signature: itc::panic_signature(&p), detail: format!("type_check panicked ({}) on a base program", p.message), replay: unit_replay("mutation_bases", Some(i as u64), &src) }),
-        }
-    });
-    rep.absorb("mutation_bases", r);
-    let muts: Vec<usize> = neg.iter().enumerate().filter(|(_, c)| c.base != usize::MAX).map(|(i, _)| i).collect();
-    let r = run_par(ctx, muts.len() as u64, 32, |k, acc| {
-        let c = &neg[muts[k as usize]];
-        if !accepted[c.base].load(Ordering::Relaxed) {
-            acc.count(&format!("mutants_not_applicable_base_rejected|{}", c.family));
-            return;
-        }
-        acc.evals += 1;
-        acc.count(&format!("mutants|{}", c.family));
-        let src = neg_source(c);
-        let replay = mutant_replay(c, &src);
-        check_mutant(c.family, &c.class, &c.what, c.expect, &src, replay, acc);
-        if k % 4001 == 0 {
-            acc.sample(obj(vec![("space", "mutants".into()), ("family", c.family.into()), ("class", c.class.as_str().into()), ("text", c.text.as_str().into())]));
-        }
-    });
-    rep.absorb("mutants", r);
 
     rep.assumptions = vec![
         "depth: depth-1 operator spaces are exhaustive over the stated operand types; depth 2 is over a class alphabet of operators and leaves; deeper nesting is not explored".into(),
@@ -1534,6 +2177,8 @@ pub fn run(ctx: &Ctx) -> i32 {
         "enum operands of arithmetic/bitwise/++ operators count as numeric (the type checker keeps enum-typed operands for unscoped enums)".into(),
         "negative side: a cast to the operand's own type, ?: results, assignment results and pre-increment results are not used as r-value forms (their value category differs between C-like languages)".into(),
         "negative side: writes to cbuffer members and to extern globals are counted as writes to const (HLSL: uniform inputs are read-only; the type checker itself makes extern globals const)".into(),
+        "modified types: the modifiers are row_major / column_major (matrices), unorm / snorm (float types), volatile (locals and parameters only, the type checker refuses it elsewhere) and the pairs order x norm; storage kinds: extern global (plain, `extern`, through a typedef), static const global, const local (both modifier orders, through a typedef), const parameter, element of Buffer / StructuredBuffer / Texture2D / Texture2DArray / Texture3D and of their mips slices; the base of a mutant is the same program with the writable counterpart (static global, plain local / parameter, RW resource) and must be accepted; the quick tier uses the plain statement position only; precise, interpolation and groupshared are outside the space".into(),
+        "brace initialisers: a rejection is demanded only when the initialiser fits neither the element-wise reading rssl implements (one element per component / element / member, a list for a scalar has exactly one element) nor HLSL's flattening reading (the scalar components of all operands add up to those of the target), and no list is empty; in every other case only the IR of an accepted program is checked, including that no source operand is missing from the elaborated initialiser; operands: int literal, float, float2, one-member struct and SamplerState globals; targets: int, float2, int3, float[2], float2[2], struct {int; float}, struct {that struct; int[2]}, array of 2 structs; matrices and unsized arrays are outside the space".into(),
         "struct templates, geometry/mesh shader objects and pipelines are outside the space".into(),
         "the typer's debug assertions are enabled in this build; a panic inside type_check is reported with its own signature".into(),
     ];
@@ -1550,7 +2195,11 @@ fn replay_into(body: &str, acc: &mut Acc, verbose: bool) -> bool {
     match kind.trim() {
         "kind: unit" => {
             let mut lines = rest.splitn(3, '\n');
-            let space = lines.next().unwrap_or("").strip_prefix("space: ").unwrap_or("?").to_string();
+            let space_line = lines.next().unwrap_or("").strip_prefix("space: ").unwrap_or("?").to_string();
+            let (space, tag) = match space_line.split_once(';') {
+                Some((a, b)) => (a.to_string(), b.to_string()),
+                None => (space_line.clone(), String::new()),
+            };
             let _case = lines.next();
             let src = lines.next().unwrap_or("");
             let pre = build_prelude();
@@ -1566,7 +2215,26 @@ fn replay_into(body: &str, acc: &mut Acc, verbose: bool) -> bool {
                         println!("replay: does not parse: {}", one_line(&msg, 300))
                     }
                 }
-                TcOut::Panic(p) => acc.violation(Violation { signature: itc::panic_signature(&p), detail: format!("type_check panicked: {}", p.message), replay: String::new() }),
+                TcOut::Panic(p) => acc.violation(Violation { signature: tagged(psig(&p), &tag), detail: format!("type_check panicked: {}", p.message), replay: String::new() }),
+            }
+            true
+        }
+        "kind: init-operands" => {
+            let (l, src) = rest.split_once('\n').unwrap_or((rest, ""));
+            let leaves: u64 = l.strip_prefix("leaves: ").and_then(|x| x.trim().parse().ok()).unwrap_or(0);
+            match tc(src) {
+                TcOut::Ok(m) => check_init_operands(&m, leaves, "replayed initialiser", src, acc),
+                TcOut::Rej { msg, .. } => {
+                    if verbose {
+                        println!("replay: rejected by the type checker: {}", one_line(&msg, 300))
+                    }
+                }
+                TcOut::ParseErr(msg) => {
+                    if verbose {
+                        println!("replay: does not parse: {}", one_line(&msg, 300))
+                    }
+                }
+                TcOut::Panic(p) => acc.violation(Violation { signature: psig(&p), detail: format!("type_check panicked: {}", p.message), replay: String::new() }),
             }
             true
         }
@@ -1574,10 +2242,12 @@ fn replay_into(body: &str, acc: &mut Acc, verbose: bool) -> bool {
             let mut lines = rest.splitn(4, '\n');
             let family = lines.next().unwrap_or("").strip_prefix("family: ").unwrap_or("?").to_string();
             let class = lines.next().unwrap_or("").strip_prefix("class: ").unwrap_or("?").to_string();
-            let expect: Vec<String> = lines.next().unwrap_or("").strip_prefix("expect: ").unwrap_or("").split(',').map(|s| s.to_string()).collect();
+            let eline = lines.next().unwrap_or("").strip_prefix("expect: ").unwrap_or("").to_string();
+            let (elist, tag) = eline.split_once(';').unwrap_or((eline.as_str(), ""));
+            let expect: Vec<String> = elist.split(',').map(|s| s.to_string()).collect();
             let src = lines.next().unwrap_or("");
             let ex: Vec<&str> = expect.iter().map(|s| s.as_str()).collect();
-            check_mutant(&family, &class, "replayed mutant", &ex, src, String::new(), acc);
+            check_mutant(&family, &class, "replayed mutant", &ex, src, String::new(), tag, acc);
             true
         }
         _ => false,
